@@ -1,13 +1,6 @@
 package c09
 
 import (
-	"context"
-	"fmt"
-	"os"
-
-	"github.com/sdcio/data-server/pkg/config"
-	schemaClient "github.com/sdcio/data-server/pkg/datastore/clients/schema"
-	"github.com/sdcio/data-server/pkg/datastore/target"
 	"pgregory.net/rapid"
 	"verif/harness/vlib"
 )
@@ -22,71 +15,8 @@ func genLoop(t *rapid.T, kind string) *Case {
 	if kind == "nc" {
 		return &Case{Hist: vlib.GenNCLoop(t)}
 	}
-	c := &Case{Hist: vlib.GenHistCase(t, vlib.HistGenOpts{Universe: vlib.UniPlainNA, MinSteps: 1, MaxSteps: 8, WithInit: true, AllowOrphan: true})}
+	c := &Case{Hist: vlib.GenHistCase(t, vlib.HistGenOpts{Universe: vlib.UniLoop, MinSteps: 1, MaxSteps: 8, WithInit: true, AllowOrphan: true})}
 	c.Hist.GNMI = rapid.SampledFrom([]string{"proto", "json", "json_ietf"}).Draw(t, "gnmi-encoding")
 	c.Hist.Loop = true
 	return c
-}
-
-func execGNMILoop(c *Case) (nontrivial bool, labels []string, fail *vlib.Failure) {
-	ctx := context.Background()
-	env := vlib.MustEnv()
-	st := vlib.GetStats("C09")
-	var tee *vlib.GNMITee
-	opts := vlib.HistEnvOpts{WrapTarget: func(dev *vlib.Device) target.Target {
-		gdev := vlib.NewGNMIDevice(dev.Snapshot())
-		gdev.NotifyOnSet = true
-		scb := schemaClient.NewSchemaClientBound(vlib.SchemaRef(), env.SchemaClient)
-		real, err := target.New(ctx, "c09loop", &config.SBI{Type: "gnmi", Address: "bufnet", Port: 1, GnmiOptions: &config.SBIGnmiOptions{Encoding: c.Hist.GNMI}}, scb, gdev.DialOpts()...)
-		if err != nil {
-			fmt.Fprintf(os.Stderr, "HARNESS-ERROR gnmi target: %v\n", err)
-			os.Exit(2)
-		}
-		tee = &vlib.GNMITee{Dev: dev, Real: real, GDev: gdev, Loop: true}
-		return tee
-	}}
-	opts.DS.Sync = vlib.GNMILoopSyncConfig(c.Hist.GNMI)
-	h, err := vlib.NewHistEnv(ctx, env, c.Hist, opts)
-	if err != nil {
-		fmt.Fprintf(os.Stderr, "HARNESS-ERROR %v\n", err)
-		os.Exit(2)
-	}
-	defer h.DS.Stop()
-	defer tee.GDev.Stop()
-	lab := map[string]bool{"closed-loop-gnmi-" + c.Hist.GNMI: true}
-	lp, f := vlib.StartGNMILoop(h, tee, c.Hist.GNMI)
-	defer lp.Stop()
-	lp.Pfx = "C09"
-	discard := func(f *vlib.Failure) (bool, []string, *vlib.Failure) {
-		st.Discard("closed-loop-precondition:" + f.Sig)
-		return false, []string{"discard"}, nil
-	}
-	if f == nil {
-		f = lp.CheckStore(h, "initial sync")
-	}
-	if f != nil {
-		return discard(f)
-	}
-	for i, s := range c.Hist.Steps {
-		res := h.RunStep(s)
-		if !res.OK {
-			st.Discard("step-refused")
-			return false, []string{"discard"}, nil
-		}
-		where := fmt.Sprintf("step %d", i)
-		if f := vlib.CheckConvergence(h, where, res); f != nil {
-			return discard(f)
-		}
-		if f := lp.CheckStore(h, where); f != nil {
-			return discard(f)
-		}
-	}
-	if len(h.Model.Intents) == 0 {
-		st.Discard("no-live-intent")
-		return false, []string{"discard"}, nil
-	}
-	if f := lp.Reapply(h, "C09", "end of history"); f != nil {
-		return true, keys(lab), f
-	}
-	return true, keys(lab), nil
 }
